@@ -92,7 +92,7 @@ impl<T> Array<T> {
     ///
     /// See [`Array::index_axis`] for a panicking version.
     pub fn get_axis(&self, axis: Axis, index: usize) -> Option<View<'_, T>> {
-        if axis.0 > self.dimensions() || index >= self.shape[axis.0] {
+        if axis.0 >= self.dimensions() || index >= self.shape[axis.0] {
             None
         } else {
             let offset = index * self.strides[axis.0];
